@@ -344,18 +344,32 @@ func cmdPure(r *RNG, n int, e *Emitter, args []string) {
 	sort.Strings(cn)
 	fmt.Fprintf(&sb, "Definition location_codes : list (string * Z) := [%s].\n\n", strings.Join(cn, "; "))
 	var found []string
-	for _, want := range []string{"getLocation", "headingClockwise", "getAdjacentLocation", "areOpposites", "getEdgesForPt"} {
+	// the classification decisions of getNextLocation, cut out of its source text as small functions of (pt, rec)
+	synth, synthNames, synthErr := nextLocationFuncs(fset, af, src)
+	if synthErr != "" {
+		fmt.Fprintf(&sb, "(* rect_clip.go:getNextLocation: NOT TRANSLATABLE: %s *)\n\n", synthErr)
+	}
+	wants := append([]string{"getLocation", "headingClockwise", "getAdjacentLocation", "areOpposites", "getEdgesForPt"}, synthNames...)
+	for _, want := range wants {
 		var fn *ast.FuncDecl
 		for _, d := range af.Decls {
 			if f, ok := d.(*ast.FuncDecl); ok && f.Name.Name == want && f.Body != nil && f.Recv == nil {
 				fn = f
 			}
 		}
+		if f, ok := synth[want]; ok {
+			fn = f
+		}
 		if fn == nil {
 			fmt.Fprintf(&sb, "(* rect_clip.go:%s: NOT FOUND *)\nDefinition gen_%s_missing : string := \"not found\"%%string.\n\n", want, want)
 			continue
 		}
 		t := &pureTr{fset: fset, consts: consts, ptypes: map[string]string{}, inputs: map[string]string{}}
+		if _, ok := synth[want]; ok {
+			for _, nm := range []string{"pt_X", "pt_Y", "rec_left", "rec_top", "rec_right", "rec_bottom"} {
+				t.inputs[nm] = "Z"
+			}
+		}
 		var order []string
 		for _, f := range fn.Type.Params.List {
 			ty := "struct"
@@ -419,4 +433,130 @@ func cmdPure(r *RNG, n int, e *Emitter, args []string) {
 		os.Exit(1)
 	}
 	e.Case("pure-0", "noop", map[string]any{"translated": found})
+}
+
+
+// nextLocationFuncs cuts the five decisions of (r *RectClip64) getNextLocation out of the source: for each outside state L
+// the "stay" condition of its scanning loop (for *i <= highI && <stay>) and the tagless switch that classifies the first
+// point that left L; for Inside the switch in its loop (default = the point is kept: code 5).  The pieces are rewritten
+// textually (path[*i] -> pt, r.rect -> rec, *loc = X -> return X) into functions of (pt Point64, rec Rect64) and handed to
+// the same translator as the other leaf functions.  Any other shape is refused.
+func nextLocationFuncs(fset *token.FileSet, af *ast.File, src []byte) (map[string]*ast.FuncDecl, []string, string) {
+	var fn *ast.FuncDecl
+	for _, d := range af.Decls {
+		if f, ok := d.(*ast.FuncDecl); ok && f.Name.Name == "getNextLocation" && f.Recv != nil && f.Body != nil {
+			fn = f
+		}
+	}
+	if fn == nil {
+		return nil, nil, "getNextLocation not found"
+	}
+	if len(fn.Body.List) != 1 {
+		return nil, nil, "body is not a single switch"
+	}
+	sw, ok := fn.Body.List[0].(*ast.SwitchStmt)
+	if !ok || sw.Tag == nil {
+		return nil, nil, "body is not a switch on *loc"
+	}
+	text := func(n ast.Node) string { return string(src[fset.Position(n.Pos()).Offset:fset.Position(n.End()).Offset]) }
+	rw := func(s string) string {
+		s = strings.ReplaceAll(s, "path[*i]", "pt")
+		s = strings.ReplaceAll(s, "r.rect.", "rec.")
+		s = strings.ReplaceAll(s, "*loc = ", "return ")
+		return s
+	}
+	var sb strings.Builder
+	sb.WriteString("package x\n")
+	var names []string
+	seen := map[string]bool{}
+	for _, cl := range sw.Body.List {
+		cc := cl.(*ast.CaseClause)
+		if len(cc.List) != 1 {
+			return nil, nil, "a case with several values"
+		}
+		id, ok := cc.List[0].(*ast.Ident)
+		if !ok {
+			return nil, nil, "a case that is not a location name"
+		}
+		L := id.Name
+		seen[L] = true
+		if L == "Inside" {
+			if len(cc.Body) != 1 {
+				return nil, nil, "Inside: unexpected statements"
+			}
+			fs, ok := cc.Body[0].(*ast.ForStmt)
+			if !ok || fs.Init != nil || fs.Post != nil || text(fs.Cond) != "*i <= highI" || len(fs.Body.List) != 2 {
+				return nil, nil, "Inside: unexpected loop"
+			}
+			isw, ok := fs.Body.List[0].(*ast.SwitchStmt)
+			br, ok2 := fs.Body.List[1].(*ast.BranchStmt)
+			if !ok || !ok2 || br.Tok != token.BREAK || isw.Tag != nil {
+				return nil, nil, "Inside: unexpected loop body"
+			}
+			var cases []string
+			for _, c2 := range isw.Body.List {
+				c3 := c2.(*ast.CaseClause)
+				if c3.List == nil {
+					want := "r.add(path[*i], false) *i++ continue"
+					var got []string
+					for _, st := range c3.Body {
+						got = append(got, text(st))
+					}
+					if strings.Join(got, " ") != want {
+						return nil, nil, "Inside: unexpected default branch"
+					}
+					cases = append(cases, "default:\n return 5\n")
+				} else {
+					cases = append(cases, rw(text(c3))+"\n")
+				}
+			}
+			fmt.Fprintf(&sb, "func next_Inside(pt Point64, rec Rect64) Location {\n switch {\n%s}\n}\n", strings.Join(cases, ""))
+			names = append(names, "next_Inside")
+			continue
+		}
+		if len(cc.Body) != 3 {
+			return nil, nil, L + ": unexpected statements"
+		}
+		fs, ok := cc.Body[0].(*ast.ForStmt)
+		if !ok || fs.Init != nil || fs.Post != nil || len(fs.Body.List) != 1 || text(fs.Body.List[0]) != "*i++" {
+			return nil, nil, L + ": unexpected scanning loop"
+		}
+		be, ok := fs.Cond.(*ast.BinaryExpr)
+		if !ok || be.Op != token.LAND || text(be.X) != "*i <= highI" {
+			return nil, nil, L + ": unexpected loop condition"
+		}
+		ifs, ok := cc.Body[1].(*ast.IfStmt)
+		if !ok || text(ifs.Cond) != "*i > highI" || len(ifs.Body.List) != 1 || text(ifs.Body.List[0]) != "break" || ifs.Else != nil {
+			return nil, nil, L + ": unexpected end test"
+		}
+		isw, ok := cc.Body[2].(*ast.SwitchStmt)
+		if !ok || isw.Tag != nil || isw.Init != nil {
+			return nil, nil, L + ": unexpected classification"
+		}
+		for _, c2 := range isw.Body.List {
+			c3 := c2.(*ast.CaseClause)
+			if len(c3.Body) != 1 || !strings.HasPrefix(text(c3.Body[0]), "*loc = ") {
+				return nil, nil, L + ": a classification branch that does more than set *loc"
+			}
+		}
+		fmt.Fprintf(&sb, "func stay_%s(pt Point64, rec Rect64) bool {\n return %s\n}\n", L, rw(text(be.Y)))
+		fmt.Fprintf(&sb, "func next_%s(pt Point64, rec Rect64) Location {\n %s\n}\n", L, rw(text(isw)))
+		names = append(names, "stay_"+L, "next_"+L)
+	}
+	for _, L := range []string{"Left", "Top", "Right", "Bottom", "Inside"} {
+		if !seen[L] {
+			return nil, nil, "no case for " + L
+		}
+	}
+	f2, err := parser.ParseFile(fset, "nextloc_synth.go", sb.String(), 0)
+	if err != nil {
+		return nil, nil, "rewritten pieces do not parse: " + err.Error()
+	}
+	out := map[string]*ast.FuncDecl{}
+	for _, d := range f2.Decls {
+		if f, ok := d.(*ast.FuncDecl); ok {
+			out[f.Name.Name] = f
+		}
+	}
+	return out, names, ""
 }
